@@ -16,10 +16,10 @@ Spell(n, cs) ==
   ELSE CASE n = "V" -> "v" [] n = "V1" -> "v1" [] n = "V10" -> "v10" [] n = "B" -> "b"
          [] n = "AB" -> IF cs = "lower" THEN "ab" ELSE "aB"
 \* what a value is as a query result / doubled / as SQL text (the latter only matters as built)
-ValStr(v) == CASE v = "n7" -> "7" [] v = "n42" -> "42" [] v = "sx" -> "x" [] v = "sq" -> "it's" [] v = "expr" -> "3"
-Numeric(v) == v \in {"n7", "n42", "expr"}
-Mul2(v) == CASE v = "n7" -> "14" [] v = "n42" -> "84" [] v = "expr" -> "6"
-ValText(v) == CASE v = "n7" -> "7" [] v = "n42" -> "42" [] v = "expr" -> "1 + 2" [] OTHER -> "?"
+ValStr(v) == CASE v = "n7" -> "7" [] v = "n42" -> "42" [] v = "sx" -> "x" [] v = "sq" -> "it's" [] v = "expr" -> "3" [] v = "nneg" -> "-5"
+Numeric(v) == v \in {"n7", "n42", "expr", "nneg"}
+Mul2(v) == CASE v = "n7" -> "14" [] v = "n42" -> "84" [] v = "expr" -> "6" [] v = "nneg" -> "-10"
+ValText(v) == CASE v = "n7" -> "7" [] v = "n42" -> "42" [] v = "expr" -> "1 + 2" [] v = "nneg" -> "-5" [] OTHER -> "?"
 
 InitSt == [vars |-> [c \in Conns |-> [n \in Names |-> UNSET]]]
 
@@ -54,6 +54,11 @@ Steps(st, op, D) ==
                     ELSE IF Numeric(v) THEN {R(st, Obs("rows", <<"p " \o ValText(v) \o " q">>))}
                     ELSE {R(st, Obs("exc", <<>>))}        \* the spliced quotes no longer parse
                ELSE {})
+    [] op.k = "bind" ->      \* select %s  with the bound text 'p $<spelled name> q': bound data is never a reference
+         {R(st, Obs("rows", <<"p $" \o Spell(op.n, op.cs) \o " q">>))}
+    [] op.k = "other" ->     \* a statement that neither sets nor uses a variable (some are answered without reaching the engine:
+                             \* ALTER TABLE .. CLUSTER BY, a statement matched by nop_regexes): no variable of any connection changes
+         {R(st, Obs("ok", <<>>))}
     [] op.k = "lit5" ->      \* select 'cost $5'
          {R(st, Obs("rows", <<"cost $5">>))}
          \cup (IF "C15.ref_in_string_literal" \in D THEN {R(st, Undef("5"))} ELSE {})
@@ -66,6 +71,8 @@ Ops(st) ==
                   n \in {m \in Names : st.vars[x.c][m] = UNSET \/ Numeric(st.vars[x.c][m])}, cs \in CasingsUsed} : x \in Cur}
   \cup {o \in {[k |-> "both", c |-> x.c, u |-> x.u, n |-> n, m |-> m, cs |-> cs] : x \in Cur, n \in Names, m \in Names, cs \in CasingsUsed \ {"mixed"}} : o.n # o.m}
   \cup {[k |-> "lit5", c |-> x.c, u |-> x.u] : x \in Cur}
+  \cup {[k |-> "bind", c |-> x.c, u |-> x.u, n |-> n, cs |-> cs] : x \in Cur, n \in Names, cs \in CasingsUsed}
+  \cup {[k |-> "other", c |-> x.c, u |-> x.u, w |-> w] : x \in Cur, w \in {"cluster_by", "nop_regex", "select1"}}
 
 \* ---- C15 on the model ----
 \* Lookup / PrefixIndependent / OrderIndependent / PerConnection: what a reference yields depends on nothing but the
@@ -77,5 +84,6 @@ StepOk(st, op, r) ==
   /\ (op.k = "sel" => IF st.vars[op.c][op.n] = UNSET THEN r.obs = Undef(op.n)
                       ELSE r.obs = Obs("rows", <<ValStr(st.vars[op.c][op.n])>>))
   /\ (op.k = "mul" /\ st.vars[op.c][op.n] # UNSET => r.obs.vals = <<Mul2(st.vars[op.c][op.n])>>)
-  /\ (op.k \in {"lit", "lit5"} => r.obs.res = "rows")
+  /\ (op.k \in {"lit", "lit5", "bind"} => r.obs.res = "rows")
+  /\ (op.k = "other" => r.obs.res = "ok")
 =============================================================================
